@@ -693,6 +693,16 @@ def legs(tier):
         out.append(Leg('lists_N4_L4', fn_groups, it, chunk=2, exhaustive=False, supplementary=True, timeout=3000,
                        src_states=len(it) * GL_ORDER[4] // 24,
                        bound='N=4 pure: all 2295 Lagrangian subspaces x every 24th of the 20160 ordered bases each (capped: 840 per subspace, 1.93 M lists) x 16 subsystems x {list, boolmask}'))
+    if tier == 'quick':
+        # N=4 in the quick tier (capped): pure states need N>=4 for >=4 crossing generators / non-prefix regions
+        it = [[4, list(b), 4032, (k * 7) % 4032, 1] for k, b in enumerate(groups(4, 4))]
+        out.append(Leg('lists_N4_L4_light', fn_groups, it, chunk=16, exhaustive=False, supplementary=True, timeout=3000,
+                       bound='N=4 pure: all 2295 Lagrangian subspaces x 5 ordered bases each (every 4032th, offset rotating with the subspace; capped) x 16 subsystems x {list, boolmask}'))
+        import os as _os
+        sd = int(_os.environ.get('VERIF_SEED', '0') or 0)
+        it = [[4, list(b), GL_ORDER[len(b)], k % GL_ORDER[len(b)], 1] for k, b in enumerate(bb for L in (1, 2, 3) for bb in groups(4, L)) if k % 3 == sd % 3]
+        out.append(Leg('lists_N4_mixed_light', fn_groups, it, chunk=64, exhaustive=False, supplementary=True, timeout=3000,
+                       bound='N=4 mixed: every 3rd isotropic subspace of dimension 1..3 (VERIF_SEED rotates which third) x 1 ordered basis each (which one rotates with the subspace; capped) x 16 subsystems x {list, boolmask}'))
     tN = [(1, (0, 1)), (2, (0, 1, 2))] + ([(3, (0, 1, 2, 3))] if tier != 'quick' else [])
     it = [[N, list(b), 1, 0] for N, Ls in tN for L in Ls for b in groups(N, L)]
     out.append(Leg('torch_lists', fn_torch, it, chunk=2, src_states=nlists(tN),
